@@ -188,8 +188,11 @@ fn generate_global_branch(
                     cachelito_core::InvalidationRegistry::global().register_callback(
                         #fn_name_str,
                         move || {
+                            // Hold the queue lock across both updates so that no insert can
+                            // slip in between and leave an entry stored but untracked.
+                            let mut order_write = #order_ident.lock();
                             #cache_ident.write().clear();
-                            #order_ident.lock().clear();
+                            order_write.clear();
                         }
                     );
                 });
